@@ -87,7 +87,11 @@ class TCPServer:
                     with trio.CancelScope() as cancel_scope:
                         cancel_scope.shield = True
                         await self.stream.send_all(event.data)
-                except (trio.BrokenResourceError, trio.ClosedResourceError):
+                except (
+                    trio.BrokenResourceError,
+                    trio.BusyResourceError,  # Sends are serialised, so it is being closed
+                    trio.ClosedResourceError,
+                ):
                     await self.protocol.handle(Closed())
         elif isinstance(event, Closed):
             await self._close()
